@@ -117,7 +117,7 @@ inductive SplitRes where
   | errSecret
   | errRandom
   | ok (shares : List (Nat × Nat))
-  deriving Repr
+  deriving Repr, DecidableEq
 
 /-- `generateInsecureSecret`: at most 100 reads; a read `≥ r` fails to deserialise and is retried. -/
 def genInsecure : Nat → List Nat → Option (Nat × List Nat)
